@@ -78,7 +78,7 @@ impl Method for HighestLowestDelta {
 		}
 
 		match length {
-			0 => Err(Error::WrongMethodParameters),
+			0 | PeriodType::MAX => Err(Error::WrongMethodParameters),
 			length => Ok(Self {
 				window: Window::new(length, value),
 				highest: value,
@@ -190,7 +190,7 @@ impl Method for Highest {
 		}
 
 		match length {
-			0 => Err(Error::WrongMethodParameters),
+			0 | PeriodType::MAX => Err(Error::WrongMethodParameters),
 			length => Ok(Self {
 				window: Window::new(length, value),
 				value,
@@ -289,7 +289,7 @@ impl Method for Lowest {
 		}
 
 		match length {
-			0 => Err(Error::WrongMethodParameters),
+			0 | PeriodType::MAX => Err(Error::WrongMethodParameters),
 			length => Ok(Self {
 				window: Window::new(length, value),
 				value,
